@@ -15,7 +15,9 @@
 (*     (Separable; printed for the serialiser checks).                     *)
 (* Every case is printed and replayed on the real tokenizer, where all     *)
 (* separator choices of one lexeme list must give identical (kind, value)  *)
-(* sequences.                                                              *)
+(* sequences, and that sequence must be the lexemes' own tokens (each      *)
+(* tokenized alone) in order: Expected is built from KindOf(lx[i]) and     *)
+(* lx[i] only, so a token never depends on the elements before it.         *)
 (***************************************************************************)
 EXTENDS Lexer
 
@@ -25,6 +27,10 @@ Lexemes == {
     <<"L">>, <<"L", "D">>, <<"U">>, <<"D">>, <<"D", ".", "D">>, <<"D", "E", "D">>, <<"D", ".", "D", "E", "-", "D">>,
     <<"sq", "sq">>, <<"sq", "L", "sq">>, <<"sq", "L", "sq", "sq", "L", "sq">>, <<"sq", "bs", "N", "sq">>, <<"sq", "-", "-", "sq">>,
     <<"dq", "L", "dq">>, <<"bt", "L", "bt">>, <<"$", "D">>, <<"@", "L">>, <<"$", "$", "L", "$", "$">>,
+    \* the remaining quoting styles: triple-quoted, typographic quotes, doubled quote inside a quoted identifier,
+    \* non-ASCII content, tagged dollar quote
+    <<"sq", "sq", "sq", "L", "sq", "sq", "sq">>, <<"usq", "L", "usq">>, <<"dq", "L", "dq", "dq", "L", "dq">>, <<"dq", "U", "dq">>,
+    <<"sq", "U", "sp", "L", "sq">>, <<"$", "L", "$", "D", "$", "L", "$">>,
     <<"(">>, <<")">>, <<"[">>, <<"]">>, <<",">>, <<";">>, <<".">>, <<"+">>, <<"*">>, <<"%">>,
     <<"-">>, <<"-", ">">>, <<"-", ">", ">">>, <<"/">>, <<"=">>, <<"=", ">">>, <<"<">>, <<"<", "=">>, <<"<", ">">>, <<"<", "@">>,
     <<">">>, <<">", "=">>, <<"!", "=">>, <<"!", "~">>, <<"!", "~", "*">>, <<":">>, <<":", ":">>, <<"|">>, <<"|", "|">>,
